@@ -19,6 +19,8 @@ import TboxModel.C17.SeqProofs
 import TboxModel.C17.ExecProofs
 import TboxModel.C17.Sim7
 import TboxModel.C17.ReentProofs
+import TboxModel.C17.Ids
+import TboxModel.C17.ExecLog
 namespace Tbox.C17
 
 /-! ## Layer 1 — one action, every call sequence
@@ -372,6 +374,15 @@ example : SerOk loopTree = true ∧ Clean loopTree = true ∧ eval loopTree = so
 example : SerOk (comp 0 (.loop .untilSucc) [leaf 1 (.func false none)]) = true ∧
     eval (comp 0 (.loop .untilSucc) [leaf 1 (.func false none)]) = none := by decide +kernel
 
+/-- **run ids (M3, first step)**: in every reachable state of every tree the queued tasks — finish / block
+notifications and replays anywhere in the tree — have pairwise distinct run ids, all below the allocation
+counter.  So `runTask id` addresses exactly one queued task, and a task posted by a handler never collides
+with one that is still queued: running a task of one subtree cannot touch a task of another (what the
+whole-tree theorem needs once several children of a ParallelAction have tasks queued at once). -/
+theorem C17_run_ids_distinct (t : T) (ops : List Op) (hc : Clean t = true) :
+    ((allTasks (run t {} ops).1 []).map (·.1)).Nodup ∧ ∀ x ∈ allTasks (run t {} ops).1 [], x.1 < (run t {} ops).2.nextId :=
+  idsOk_plain _ _ (run_idsOk ops t {} (fun id => by rw [cnt_clean t hc id]; simp [cntU]))
+
 /-! ## Re-entrant control: callback scripts on the root (Reent.lean, ReentProofs.lean)
 
 `runR t {} ops`: the ops of `run`, plus `cb final|fin|blk <calls>`: attach a one-shot script to the root's
@@ -484,6 +495,15 @@ theorem C17_exec_highest_priority_first (ops : List Exec.XOp) (hok : ops.all Exe
     ∀ i a rest, (Exec.xrun {} ops).q i = a :: rest → a.st = .running → ∀ j, j < Exec.nrm i → (Exec.xrun {} ops).q j = [] :=
   Exec.exec_highest_first ops hok
 
+/-- **callbacks at most once per action**: over the whole history of any sequence of executor operations the
+started callback and the finished callback fire at most once per action id; an action whose finished
+callback fired is gone from the deques, one whose started callback fired is never Idle again. -/
+theorem C17_exec_callbacks_once (ops : List Exec.XOp) (hok : ops.all Exec.opOk = true) (id : Nat) :
+    (Exec.xrun {} ops).log.count (.started id) ≤ 1 ∧ (Exec.xrun {} ops).log.count (.finished id) ≤ 1 ∧
+    (Exec.XEv.finished id ∈ (Exec.xrun {} ops).log → Exec.cP (Exec.xrun {} ops) (Exec.idP id) = 0) ∧
+    (Exec.XEv.started id ∈ (Exec.xrun {} ops).log → Exec.cP (Exec.xrun {} ops) (Exec.idleP id) = 0) :=
+  Exec.exec_callbacks_once ops hok id
+
 example : (Exec.xrun {} [.append .dummy 2, .append .dummy 2, .append .dummy 0, .emit 3 true, .pass]).curr = some 2 := by decide +kernel
 
 /-! ### OPEN (stated, not proved; carried by the executable model + correspondence + monitors)
@@ -501,15 +521,28 @@ example : (Exec.xrun {} [.append .dummy 2, .append .dummy 2, .append .dummy 0, .
 --   * timeouts (`tmo ≠ none`) and DummyAction leaves are outside the evaluator's domain (the evaluator has
 --     no notion of time; needed: `evalT` returning the finishing time along with the result).
 --   The driver still compares every generated control-free run (all composites, all modes) with `eval`.
--- OPEN re-entrant control below the root: call-outs made while frames of ANCESTORS are on the stack — the body of a
---   FunctionAction, the callbacks of a DummyAction, the final callback of a nested composite that ends inside a
---   start() / stop() chain — calling start/stop/pause/resume/reset on the root.  The functions of Model.lean are
---   local (a call returns the new subtree to its caller, which holds a copy of its own node); a faithful model
---   needs resumable continuations: every function that can have a call-out beneath it (start / stop / finish
---   families, startChildren / stopAll loops, startThisAction's `curr_action_ = action`) returns, beside its result,
---   "interrupted at path p with the rest of the frames", and the root call is applied to the snapshot rebuilt from
---   the frames.  The root's own callbacks (final: synchronous; finish / block: from the loop) are closed:
---   `C17_tree_inv_reentrant` and corollaries.
+-- Re-entrant control below the root (op `icb`): control calls on the root from FunctionAction bodies and from the final
+--   callbacks of inner composites are run in FREE mode: the model does not predict them; the harness evaluates, on the
+--   real code, the clauses that need no prediction (nothing under way below an ended action; finish notification at most
+--   once per run and only while Finished; block notification not while Idle / Stoped; final callback only on an ended
+--   action; root not under way / Idle at the end of an op whose last call was stop() / reset(); once settled, no Running
+--   composite without a child under way).  Found and repaired: patches/C17-09 … C17-14.
+-- OPEN (model): a faithful model of these runs needs resumable continuations — the functions of Model.lean are local (a
+--   call returns the new subtree to its caller, which holds a copy of its own node); every function that can have a
+--   call-out beneath it would return "interrupted at path p with the rest of the frames".
+-- OPEN (finding, not repaired): random free runs with SEVERAL scripts and control calls still end, now and then, in a
+--   Running composite that waits for nothing (`settle`), e.g.
+--     tree ( seq:all ( wr:f Z3 ) ( wr:n Fs ) ( seq:anyf ) ) ; icb final 0 0 reset start ; do start ; do reset pause ; pass ; pass ;
+--     defer start ; adv 1 ; pass ; pass ; adv 6 ; pass ; pass ; pass ; settle
+--   (the directed set — one script, at most one control call — is clean with `settle`); control calls on INNER nodes from
+--   call-outs are misuse (the parent keeps its own bookkeeping) and are not generated.
+-- OPEN M3 (Parallel in the whole-tree theorem): closed so far `C17_run_ids_distinct` (`step_idsOk`).  Missing: (i) locality —
+--   `runTask t g id` with the task at path p only changes `subAt t p'` for the parent path p' (from `idsOk_plain` +
+--   `allTasks_at`); (ii) `RunOk` for several active children: `AP` (at most one queued task) replaced by "every child is
+--   AP", and the trace clause by "the trace restricted to the leaves of child i is a prefix of / equals `visit c_i`" (an
+--   interleaving); (iii) the lockstep lemma: one pass = one `step` of every active child, in run-id order.
+-- OPEN T (timeouts in the evaluator's domain): `evalT : T → Option (Bool × Nat × Nat)` with the finishing time needs
+--   `Good` to carry absolute times (start time + delay) through `KSpec`; `DPS.tmo = none` is used by every `good_*`.
 -- OPEN "a Running composite waits for something" (`stuckRoot` never holds in the repaired configuration): monitored
 --   by the driver on every state (`running-composite-waits-for-nothing`), proved on the instances above only; as an
 --   invariant it needs, beside `WF`, "a Running serial composite has a current child under way, or a notification /
@@ -519,11 +552,9 @@ example : (Exec.xrun {} [.append .dummy 2, .append .dummy 2, .append .dummy 0, .
 -- OPEN C17_reset_bisim: after `reset` every later op sequence produces the same observable trace as on
 --   the freshly built tree (equal up to run ids and the dead fields).  Proved: `Clean` + `WF` of the
 --   reset tree (`C17_reset_fresh`); the driver's differential runs contain reset-then-rerun histories.
--- OPEN ActionExecutor: "the started / finished callbacks fire at most once per action id" is evaluated by
---   the driver on every generated executor history (monitor) but not proved (missing: the log invariant
---   `started id ∈ log ⇒ the action with that id is not Idle`, `finished id ∈ log ⇒ no action with that id`,
---   ids distinct and ≤ the counter — `xinv` in Exec.lean states it, its preservation by `sched` is open).  cancelAll()
---   only stops the heads and neither removes anything nor calls schedule(): reported, modelled as is.
+-- ActionExecutor: one-at-a-time, heads-only, highest-priority-first and callbacks-once are proved.  Observations
+--   (not defects of the invariants): cancelAll() only stops the heads and neither removes anything nor calls
+--   schedule(); cancel(id) deletes a Running action without stop(): reported, modelled as is.
 -/
 
 end Tbox.C17
